@@ -2,7 +2,7 @@
    Statements only; proofs in Proofs/MsmFacts.v. *)
 From Coq Require Import List ZArith Arith QArith Qcanon.
 From MsmV Require Import Lib.Result Lib.PyList Lib.Sorting Lib.QMat
-  Model.Labels Model.StateTraj Model.Msm Proofs.LabelsFacts Proofs.MsmFacts.
+  Model.Labels Model.StateTraj Model.Msm Proofs.LabelsFacts Proofs.MsmFacts Proofs.FastEntries.
 Import ListNotations.
 Local Open Scope nat_scope.
 
@@ -73,6 +73,16 @@ Proof. reflexivity. Qed.
 Print Assumptions emm_fun_eq_method.
 
 (* non-vacuity: two trajectories, gapped unsorted labels, one shorter than the lag *)
+(* the counts the runner's fast entry (102) reports for long inputs - the code-shaped fold over the
+   constructed object - are the label-level in-trajectory pair counts of the specification *)
+Theorem fast_counts_are_label_counts_thm : forall ts lag s i j,
+  concat ts <> [] -> (forall v, In v (concat ts) -> small29 v) -> 1 <= lag ->
+  mk ts = Ok s -> i < length (unique ts) -> j < length (unique ts) ->
+  zget (count_matrix (nstates s) lag (st_idx s)) i j
+  = Z.of_nat (Label_C lag ts (nth i (unique ts) 0%Z) (nth j (unique ts) 0%Z)).
+Proof. exact fast_counts_are_label_counts. Qed.
+Print Assumptions fast_counts_are_label_counts_thm.
+
 Example emm_example :
   rmap (fun p => (map (map (fun q : Qc => this q)) (fst p), snd p))
        (estimate_markov_model [[7; -2; 7; 7]%Z; [-2]%Z; [5; 7]%Z] 2)
